@@ -364,6 +364,22 @@ class TokamakEquilibrium(Equilibrium):
 
         self.user_options = self.user_options_factory.create(settings)
 
+        # A NaN or infinity in one of the input arrays would end up in the grid file
+        # without an error (e.g. a NaN in the pressure profile makes the spline, and
+        # so the pressure written to the grid file, NaN everywhere)
+        for name, array in (
+            ("R1D", R1D),
+            ("Z1D", Z1D),
+            ("psi2D", psi2D),
+            ("psi1D", psi1D),
+            ("fpol1D", fpol1D),
+            ("pressure", pressure),
+        ):
+            if array is not None and not np.all(
+                np.isfinite(np.asarray(array, dtype=float))
+            ):
+                raise ValueError(f"Input array {name} contains non-finite values")
+
         # Note: do not modify the arrays passed in by the caller
         if self.user_options.reverse_current:
             warnings.warn("Reversing the sign of the poloidal field")
